@@ -458,6 +458,8 @@ def family(info):
 
 NOT_IN_EBT = ("svc", "ssc", "tcsc", "vsc", "line_dc", "source_dc", "load_dc", "b2b_vsc", "bi_vsc")  # tables with bus / bus_dc
 # columns that pandapower.toolbox.element_bus_tuples() does not list
+NO_RES_IN_EBT = ("switch", "asymmetric_load", "asymmetric_sgen")  # 'elements_without_res' of element_bus_tuples(), although
+# res_switch / res_asymmetric_* exist: create_continuous_elements_index never reindexes these result tables
 MEAS_BRANCH = ("bus", "line", "trafo", "trafo3w")
 SIMPLE_DROPPERS = ("drop_elements", "drop_elements_simple", "drop_out_of_service_elements", "drop_inactive_elements")
 SELECT_FILTERED = set(BUS_EL + BRANCH_EL + ["bus", "switch", "measurement", "poly_cost", "pwl_cost"])
@@ -508,7 +510,7 @@ def classify(info, r, stale, pre, net):
             return "reindex_elements_ignores_t3_switches"
         if kind == "measurement_element" and tt not in MEAS_BRANCH and reindexed(tt):
             return "reindex_elements_ignores_bus_element_measurements"
-        if kind == "res_index" and reindexed(tt) and (op != "create_continuous_elements_index" or tt == "switch"):
+        if kind == "res_index" and reindexed(tt) and (op != "create_continuous_elements_index" or tt in NO_RES_IN_EBT):
             return "reindex_elements_leaves_res_table"
         if kind == "characteristic_table" and table == "shunt" and op == "merge_nets":
             return "merge_nets_shunt_characteristic_ids_collide"
@@ -566,7 +568,7 @@ def compare_relations(info, before, after):
         return out
     for k in before.keys() & after.keys():
         b, a = before[k][1], after[k][1]
-        if b == a:
+        if b == a or (k[0] == "group_member" and op == "create_ref"):  # attach_to_group adds members
             continue
         if op == "fuse_buses" and (k[0] in ("bus", "measurement_side") or before[k][0] in (("bus", before[k][0][1]), ("b", before[k][0][1]))
                                    if isinstance(before[k][0], tuple) else k[0] in ("bus", "measurement_side")):
@@ -585,9 +587,6 @@ def compare_relations(info, before, after):
 
 def repair(net):
     """remove dangling referrers (harness-side, plain pandas) so that the rest of the history starts from a clean net"""
-    for k in list(net.keys()):
-        if isinstance(net[k], pd.DataFrame) and any(not isinstance(c, str) for c in net[k].columns):
-            net[k] = net[k][[c for c in net[k].columns if isinstance(c, str)]]
     for _ in range(12):
         recs = refwalk.dangling(net)
         if not recs:
@@ -658,7 +657,7 @@ def run_case(seed, tier, case_no):
             tags.add("mech:" + mech)
         viols.append(common.viol(what, mechanism=mech, step=len(history), seed=seed, **w))
 
-    while len(history) < n_ops and tries < 4 * n_ops:
+    while len(history) < n_ops and tries < 4 * n_ops and len(net.bus) >= 3:
         tries += 1
         fn = OPS[int(g.rng.choice(len(OPS), p=weights))][0]
         pre = copy.deepcopy(net)
@@ -706,8 +705,12 @@ def run_case(seed, tier, case_no):
             mech = classify(info, pseudo, stale, pre, net) if b is not None and a is not None else None
             count("retargeted:" + kind)
             report((op, "identity", kind, pseudo["table"], pseudo["target_table"], mech),
-                   "after %s: %s reference of %s: %s: %s -> %s" % (op, kind, list(k[1:]), what, b, a), mech, op=info, key=list(k),
+                   "after %s: %s reference of %s: %s: %s -> %s" % (op, kind, list(k[1:]), what, b, a), mech, op=info, rkey=list(k),
                    before=b, after=a, stale=stale)
+        for k in list(net.keys()):  # attach_to_group_nan_reference_column also plants a column named NaN: remove it (not a reference)
+            if isinstance(net[k], pd.DataFrame) and any(not isinstance(c, str) for c in net[k].columns):
+                net[k] = net[k][[c for c in net[k].columns if isinstance(c, str)]]
+                count("nan_named_column_removed")
         if recs:
             count("repairs")
             if not repair(net):
